@@ -713,8 +713,7 @@ class SymInt:
         oz = self._coerce(o)
         if oz is None:
             return NotImplemented
-        f = _BITFUN[name]
-        return SymInt(f(self.t, oz))
+        return SymInt(bitfun(name, self.t, oz))
 
     def __and__(self, o: Any) -> Any:
         return self._bitop(o, "and")
@@ -791,6 +790,20 @@ _BITFUN = {
     "or": z3.Function("bitor", z3.IntSort(), z3.IntSort(), z3.IntSort()),
     "xor": z3.Function("bitxor", z3.IntSort(), z3.IntSort(), z3.IntSort()),
 }
+
+
+def bitfun(name: str, a: Any, b: Any) -> Any:
+    """Uninterpreted and/or/xor on mathematical integers, with a commutativity instance asserted
+    for every application."""
+    if not isinstance(a, z3.ExprRef):
+        a = z3.IntVal(a)
+    if not isinstance(b, z3.ExprRef):
+        b = z3.IntVal(b)
+    f = _BITFUN[name]
+    t = f(a, b)
+    if _CUR is not None:
+        _CUR.solver.add(t == f(b, a))  # commutativity instance
+    return t
 
 
 def pow2(n: z3.ArithRef) -> z3.ArithRef:
